@@ -9,6 +9,7 @@ func SetAccessHook(f func(id int, write bool)) {}
 func SetMapOrderHook(f func(n int) []int)       {}
 func SetSchedHooks(point func(label string), block func(label string, waiting func() bool)) {
 }
+func SetStepHook(f func())  {}
 func AccessSites() []string { return nil }
 
 func GlobalPointers() map[string]map[string]interface{} { return nil }
